@@ -46,7 +46,7 @@ Print Assumptions C03_vle_nonneg_needs_nonneg_composition.
 Definition orc_lever2 := mkorc 0 (fun _ => 0) (fun _ => 0) 0 0 (fun _ _ => (50000, [1#8; 2])) (fun _ _ => (0, []))
   (fun _ _ _ => []) (fun _ => ([], 0)) (fun _ _ _ _ => 0) (fun _ _ _ _ _ => 0) (fun _ _ _ _ _ => 0).
 Example C03_lever_clip_example :
-  vle cf2 orc_lever2 (SpTx 350 [3#4; 1#4]) st_lever = VOk (mkst [36 # 40; 0] [4 # 40; 1] [] 350 50000).
+  vle cf2 orc_lever2 (SpTx 350 [3#4; 1#4]) st_lever = VOk (mkst [1152 # 1280; 0] [128 # 1280; 1] [] 350 50000).
 Proof. vm_compute. reflexivity. Qed.
 
 (* LLE.__call__ write-back, for every solver result / cached K / phase fraction *)
